@@ -35,11 +35,16 @@ func inE(e *E, arr int) *E      { return &E{K: "in", I: arr, Kids: []*E{e}} }
 func incr(pre bool, op string, e *E) *E {
 	return &E{K: "incr", Op: op, Pre: pre, Kids: []*E{e}}
 }
-func fld(e *E) *E           { return &E{K: "fld", Kids: []*E{e}} }
-func idx(arr int, i *E) *E  { return &E{K: "idx", I: arr, Kids: []*E{i}} }
-func getl(c, t, f *E) *E    { return &E{K: "getline", Kids: []*E{c, t, f}} }
-func (e *E) isNil() bool    { return e.K == "nil" }
-func (e *E) isAtom() bool   { return e.K == "num" || e.K == "var" || e.K == "str" || e.K == "nil" }
+func fld(e *E) *E                { return &E{K: "fld", Kids: []*E{e}} }
+func nfld(e *E) *E               { return &E{K: "nfld", Kids: []*E{e}} }
+func leafR(i int) *E             { return &E{K: "re", I: i} }
+func call(fn string, k ...*E) *E { return &E{K: "call", Op: fn, Kids: k} }
+func idx(arr int, i *E) *E       { return &E{K: "idx", I: arr, Kids: []*E{i}} }
+func getl(c, t, f *E) *E         { return &E{K: "getline", Kids: []*E{c, t, f}} }
+func (e *E) isNil() bool         { return e.K == "nil" }
+func (e *E) isAtom() bool {
+	return e.K == "num" || e.K == "var" || e.K == "str" || e.K == "nil"
+}
 func (e *E) isLValue() bool { return e.K == "var" || e.K == "idx" || e.K == "fld" }
 
 // S-expression, identical to GoawkModel.Drv.C04.showTree
@@ -73,6 +78,16 @@ func (e *E) String() string {
 		return "(incr " + p + " " + e.Op + " " + e.Kids[0].String() + ")"
 	case "fld":
 		return "(fld " + e.Kids[0].String() + ")"
+	case "nfld":
+		return "(nfld " + e.Kids[0].String() + ")"
+	case "re":
+		return fmt.Sprintf("re%d", e.I)
+	case "call":
+		s := "(call " + e.Op
+		for _, k := range e.Kids {
+			s += " " + k.String()
+		}
+		return s + ")"
 	case "idx":
 		return fmt.Sprintf("(idx v%d ", e.I) + e.Kids[0].String() + ")"
 	case "getline":
@@ -156,7 +171,7 @@ func (e *E) prec() int {
 		return 11
 	case "incr":
 		return 13
-	case "fld":
+	case "fld", "nfld":
 		return 14
 	}
 	return 15
@@ -178,8 +193,8 @@ func addMin(pc bool, e *E) *E {
 		}
 		rr := fitMin(pc, r, e.Kids[1])
 		if e.Op == "cat" {
-			switch render(rr)[0] {
-			case "+", "-", "++", "--":
+			if h := render(rr)[0]; h == "+" || h == "-" || h == "++" || h == "--" || strings.HasPrefix(h, "/") {
+				// `a -b` is a subtraction, `a ++b` a post-increment, `a /re/` a division
 				rr = grpE(addMin(false, e.Kids[1]))
 			}
 		}
@@ -192,12 +207,21 @@ func addMin(pc bool, e *E) *E {
 		return inE(fitMin(pc, 5, e.Kids[0]), e.I)
 	case "incr":
 		k := e.Kids[0]
-		if !e.Pre && k.K == "fld" && k.Kids[0].K == "fld" {
-			return incr(false, e.Op, fld(grpE(fld(fitMin(false, 14, k.Kids[0].Kids[0])))))
+		if !e.Pre && k.K == "fld" && (k.Kids[0].K == "fld" || k.Kids[0].K == "nfld") {
+			// `$$x++` is `$($x++)`: the operand of `$` under a post-increment must be closed
+			return incr(false, e.Op, fld(grpE(addMin(false, k.Kids[0]))))
 		}
 		return incr(e.Pre, e.Op, addMin(false, k))
 	case "fld":
 		return fld(fitMin(false, 14, e.Kids[0]))
+	case "nfld":
+		return nfld(fitMin(false, 14, e.Kids[0]))
+	case "call":
+		ks := make([]*E, len(e.Kids))
+		for i, k := range e.Kids {
+			ks[i] = addMin(false, k)
+		}
+		return call(e.Op, ks...)
 	case "idx":
 		return idx(e.I, addMin(false, e.Kids[0]))
 	case "getline":
@@ -236,6 +260,14 @@ func addFull(e *E) *E {
 		return incr(e.Pre, e.Op, addFull(e.Kids[0]))
 	case "fld":
 		return fld(grpF(e.Kids[0]))
+	case "nfld":
+		return nfld(grpF(e.Kids[0]))
+	case "call":
+		ks := make([]*E, len(e.Kids))
+		for i, k := range e.Kids {
+			ks[i] = grpF(k)
+		}
+		return call(e.Op, ks...)
 	case "idx":
 		return idx(e.I, grpF(e.Kids[0]))
 	case "getline":
@@ -294,6 +326,19 @@ func render(e *E) []string {
 		return append(append([]string{}, render(e.Kids[0])...), e.Op)
 	case "fld":
 		return append([]string{"$"}, render(e.Kids[0])...)
+	case "nfld":
+		return append([]string{"@"}, render(e.Kids[0])...)
+	case "re":
+		return []string{fmt.Sprintf("/r%d/", e.I)}
+	case "call":
+		r := []string{e.Op, "("}
+		for i, k := range e.Kids {
+			if i > 0 {
+				r = append(r, ",")
+			}
+			r = append(r, render(k)...)
+		}
+		return append(r, ")")
 	case "idx":
 		r := []string{fmt.Sprintf("v%d", e.I), "["}
 		r = append(r, render(e.Kids[0])...)
@@ -384,7 +429,7 @@ func conv(v reflect.Value) *E {
 		return leafN(int(x))
 	case "StrExpr":
 		if f("Regex").Bool() {
-			return &E{K: "?regex"}
+			return leafR(id(f("Value").String()))
 		}
 		s := f("Value").String()
 		if len(s) < 2 {
@@ -415,6 +460,16 @@ func conv(v reflect.Value) *E {
 		return incr(f("Pre").Bool(), tokStr("Op"), conv(f("Expr")))
 	case "FieldExpr":
 		return fld(conv(f("Index")))
+	case "NamedFieldExpr":
+		return nfld(conv(f("Field")))
+	case "RegExpr":
+		return leafR(id(f("Regex").String()))
+	case "CallExpr":
+		c := call(tokStr("Func"))
+		for i := 0; i < f("Args").Len(); i++ {
+			c.Kids = append(c.Kids, conv(f("Args").Index(i)))
+		}
+		return c
 	case "IndexExpr":
 		return idx(id(f("Array").String()), one("Index"))
 	case "GetlineExpr":
